@@ -9,6 +9,8 @@ package main
 // a semicolon follows a token iff the token is in the trigger set and the text
 // up to the next token (or the end of input) contains a newline - a comment
 // containing a newline counts as a newline, a comment without one as a space.
+// An inserted semicolon is reported with the literal "\n", a written one with
+// ";" (as go/scanner does; Tengo's parser tells them apart by it).
 // Oracle (parse level): when both `t1 <sep> t2` and its reference spelling
 // (`t1 ; t2` if a semicolon is due, else `t1 t2`) parse, they parse alike.
 
@@ -129,34 +131,92 @@ var ctxByName = func() map[string]*ctxSpec {
 	return m
 }()
 
-// layout builds the source text and the predicted token stream for the token
-// sequence prefix + t1 <mid> t2 + suffix, all other tokens separated by one
-// space and the text ending in a newline.
-func layout(c *ctxSpec, t1, t2 *tokSpec, mid string) (src string, want []tokLit) {
-	type item struct {
-		t   *tokSpec
-		sep string
-	}
-	var items []item
+type layoutItem struct {
+	t   *tokSpec
+	sep string // text between this token and the next one (or the end of input)
+}
+
+// buildLayout is the token sequence prefix + t1 <mid> t2 + suffix, all other
+// tokens separated by one space, the text ending in a newline.
+func buildLayout(c *ctxSpec, t1, t2 *tokSpec, mid string) []layoutItem {
+	var items []layoutItem
 	for _, p := range c.prefix {
-		items = append(items, item{tokByText[p], " "})
+		items = append(items, layoutItem{tokByText[p], " "})
 	}
-	items = append(items, item{t1, mid}, item{t2, " "})
+	items = append(items, layoutItem{t1, mid}, layoutItem{t2, " "})
 	for _, p := range c.suffix {
-		items = append(items, item{tokByText[p], " "})
+		items = append(items, layoutItem{tokByText[p], " "})
 	}
 	items[len(items)-1].sep = "\n"
+	return items
+}
+
+// render gives the source text and the token stream predicted by the
+// insertion rule; owner[i] is the item that want[i] belongs to (for an
+// inserted semicolon: the item it follows; for EOF: len(items)).
+func render(items []layoutItem) (src string, want []tokLit, owner []int) {
 	var sb strings.Builder
-	for _, it := range items {
+	for k, it := range items {
 		sb.WriteString(it.t.text)
 		sb.WriteString(it.sep)
 		want = append(want, tokLit{it.t.tok, it.t.lit})
+		owner = append(owner, k)
 		if it.t.trig && hasNL(it.sep) {
 			want = append(want, tokLit{";", "\n"})
+			owner = append(owner, k)
 		}
 	}
 	want = append(want, tokLit{"EOF", ""})
-	return sb.String(), want
+	owner = append(owner, len(items))
+	return sb.String(), want, owner
+}
+
+func layout(c *ctxSpec, t1, t2 *tokSpec, mid string) (string, []tokLit) {
+	src, want, _ := render(buildLayout(c, t1, t2, mid))
+	return src, want
+}
+
+func tokEq(a, b tokLit) bool {
+	// the literal tells an inserted semicolon ("\n") from a written one (";")
+	return a.tok == b.tok && a.lit == b.lit
+}
+
+// tokenSig localises a token-stream mismatch: the token after which a
+// semicolon is missing / spurious (or which is lexed differently), the class
+// of the token that follows it, and whether the same two tokens with the same
+// separator already fail on their own (any-context) or only in this context.
+func tokenSig(ctxName string, items []layoutItem, got, want []tokLit, owner []int) string {
+	i := 0
+	for i < len(got) && i < len(want) && tokEq(got[i], want[i]) {
+		i++
+	}
+	kind := "lexical"
+	k := len(items)
+	switch {
+	case i >= len(want):
+		kind, k = "extra-tokens", len(items)-1
+	case want[i].tok == ";" && want[i].lit == "\n":
+		kind, k = "missing", owner[i]
+	case i < len(got) && got[i].tok == ";" && got[i].lit == "\n":
+		kind, k = "spurious", owner[i]-1
+	default:
+		k = owner[i]
+	}
+	if k < 0 || k >= len(items) {
+		return "asi/layout-" + kind + "/" + ctxName
+	}
+	next := "eof"
+	sub := []layoutItem{items[k]}
+	if k+1 < len(items) {
+		next = items[k+1].t.coarse
+		sub = append(sub, layoutItem{items[k+1].t, "\n"})
+	}
+	bsrc, bwant, _ := render(sub)
+	bgot, berrs := scanSrc(bsrc)
+	if !(berrs == 0 && sameTokens(bgot, bwant)) {
+		ctxName = "any-context"
+	}
+	return "asi/" + items[k].t.class + "-" + next + "/" + ctxName + "/" + kind
 }
 
 func sameTokens(a, b []tokLit) bool {
@@ -164,10 +224,7 @@ func sameTokens(a, b []tokLit) bool {
 		return false
 	}
 	for i := range a {
-		if a[i].tok != b[i].tok {
-			return false
-		}
-		if a[i].tok != ";" && a[i].lit != b[i].lit { // literal of a semicolon (";" vs "\n") is not part of the rule
+		if !tokEq(a[i], b[i]) {
 			return false
 		}
 	}
@@ -199,22 +256,12 @@ type asiObs struct {
 
 // runASI checks one (context, t1, t2, separator) layout.
 func runASI(c *ctxSpec, t1, t2 *tokSpec, sp *sepSpec) (fails []fail, obs asiObs, detail string) {
-	src, want := layout(c, t1, t2, sp.text)
+	items := buildLayout(c, t1, t2, sp.text)
+	src, want, owner := render(items)
 	got, errs := scanSrc(src)
 	tokOK := errs == 0 && sameTokens(got, want)
 	if !tokOK {
-		// is the failure independent of the surrounding context?
-		ctxName := c.name
-		if c.name != "bare" {
-			bsrc, bwant := layout(ctxByName["bare"], t1, t2, sp.text)
-			bgot, berrs := scanSrc(bsrc)
-			if !(berrs == 0 && sameTokens(bgot, bwant)) {
-				ctxName = "any-context"
-			}
-		} else {
-			ctxName = "any-context"
-		}
-		fails = append(fails, fail{"asi/" + t1.class + "-" + t2.coarse + "/" + ctxName,
+		fails = append(fails, fail{tokenSig(c.name, items, got, want, owner),
 			fmt.Sprintf("scanning %q (separator %s) gives [%s] (scan errors %d), the insertion rule gives [%s]",
 				src, sp.name, showTokens(got), errs, showTokens(want))})
 	}
